@@ -130,6 +130,9 @@ PURE_CONTAINER_METHODS = {"as_ref", "as_slice", "as_str", "borrow", "to_vec", "t
                           "to_string", "as_mut", "as_bytes", "deref", "first", "last", "get", "contains_key", "binary_search", "starts_with", "ends_with"}
 
 
+CURRENT = None
+
+
 class Interp:
     def __init__(self, env=None, src_env=None, cfg=default_cfg, on_call=None, max_steps=200000):
         self.scopes = [dict(env or {})]
@@ -551,6 +554,8 @@ class Interp:
             raise Return(v)
         if isinstance(v, tuple) and v[0] == "None":
             raise Return(v)
+        if getattr(self, "strict_try", False):
+            raise Unknown("`?` applied to a value that could not be evaluated (%s)" % (e["e"].get("s") or "")[:60])
         return OPAQUE
 
     def e_ret(self, e):
@@ -710,6 +715,7 @@ class Interp:
         sub = Interp(env={n: a for n, a in zip(names, args) if n}, src_env=self.src_env, cfg=self.cfg, on_call=self.on_call, max_steps=self.max_steps)
         sub.consts = self.consts
         sub.resolve_fn = getattr(self, "resolve_fn", None)
+        sub.strict_try = getattr(self, "strict_try", False)
         sub._inline_depth = depth + 1
         try:
             return sub.block(fnode["body"])
@@ -721,6 +727,8 @@ class Interp:
         m = e["m"]
         if self.on_call:
             args = None
+            global CURRENT
+            CURRENT = self          # the interpreter evaluating this call (a scripted callee may need to evaluate an argument place)
             r = self.on_call("method", m, e, args, recv)
             if r is not NotImplemented:
                 return r
@@ -795,6 +803,12 @@ class Interp:
                 return recv[1][recv[2]]
             if m == "or_default":
                 return recv[1].setdefault(recv[2], OPAQUE)
+        if m in ("iter", "into_iter", "iter_mut") and isinstance(recv, tuple) and recv[0] in ("Some", "None") and len(recv) <= 2 and not e["a"]:
+            return ("list", [recv[1]] if recv[0] == "Some" else [])       # an Option iterates over zero or one item
+        if isinstance(recv, bool) and m == "then_some" and len(args) == 1:
+            return ("Some", args[0]) if recv else ("None",)
+        if isinstance(recv, bool) and m == "then" and len(args) == 1 and isinstance(args[0], dict):
+            return ("Some", self.call_closure(args[0], [])) if recv else ("None",)
         if isinstance(recv, tuple) and recv[:1] == ("list",):
             recv_list = recv[1]
         elif isinstance(recv, MutList):
@@ -803,6 +817,40 @@ class Interp:
             recv_list = list(recv[1] if isinstance(recv[1], bytes) else recv[1].encode())
         else:
             recv_list = None
+        if recv_list is not None and m == "flatten" and not e["a"]:
+            out = []
+            for x in recv_list:
+                if isinstance(x, tuple) and x[:1] == ("list",):
+                    out.extend(x[1])
+                elif isinstance(x, (list, MutList)) and getattr(x, "kind", "vec") != "str":
+                    out.extend(x)
+                elif isinstance(x, tuple) and x and x[0] in ("Some", "Ok") and len(x) == 2:
+                    out.append(x[1])
+                elif isinstance(x, tuple) and x and x[0] in ("None", "Err"):
+                    pass
+                else:
+                    raise Unknown("flatten over %r" % (x,))
+            return ("list", out)
+        if recv_list is not None and m in ("map", "filter_map", "any", "all", "filter") and e["a"] and e["a"][0].get("k") == "path" and "::" in e["a"][0]["p"]:
+            # a function item instead of a closure
+            fp = e["a"][0]["p"]
+            last = fp.split("::")[-1]
+            res = []
+            for x in list(recv_list):
+                r = self.on_call("fn", fp, e["a"][0], [x], None) if self.on_call is not None else NotImplemented
+                if r is NotImplemented:
+                    if last in ("as_str", "as_ref", "clone", "to_owned", "to_string", "from", "into", "as_slice", "as_bytes", "deref", "borrow") and m == "map":
+                        r = x
+                    else:
+                        raise Unknown("iterator adaptor .%s(%s)" % (m, fp))
+                res.append((x, r))
+            if m == "map":
+                return ("list", [r for _, r in res])
+            if m == "filter_map":
+                return ("list", [r[1] for _, r in res if isinstance(r, tuple) and r[0] == "Some"])
+            if m == "filter":
+                return ("list", [x for x, r in res if self.truth(r)])
+            return (any if m == "any" else all)(self.truth(r) for _, r in res)
         if recv_list is not None and args and isinstance(args[0], dict) and args[0].get("k") == "closure":
             cl = args[0]
             if m in ("max_by", "min_by"):
@@ -894,6 +942,13 @@ class Interp:
                     return ("tuple", [])
                 if m == "for_each":
                     return ("tuple", [])
+        if recv_list is not None and m == "fold" and len(args) == 2 and isinstance(args[1], dict):
+            acc = args[0]
+            for x in list(recv_list):
+                acc = self.call_closure(args[1], [acc, x])
+            if isinstance(recv, PyIter):
+                del recv[:]
+            return acc
         if recv_list is not None:
             if m in ("iter", "iter_mut", "into_iter", "cloned", "copied", "by_ref", "as_slice"):
                 return recv
@@ -1087,6 +1142,15 @@ class Interp:
                 return ("list", out)
             if m == "bytes":
                 return ("list", list(t.encode()))
+            if m in ("matches", "rmatches", "match_indices") and args and _strval(args[0]):
+                pat, out, k = _strval(args[0]), [], 0
+                while True:
+                    k = t.find(pat, k)
+                    if k < 0:
+                        break
+                    out.append(("str", pat) if m != "match_indices" else ("tuple", [len(t[:k].encode()), ("str", pat)]))
+                    k += len(pat)
+                return ("list", out[::-1] if m == "rmatches" else out)
             if m in ("find", "rfind") and args and _strval(args[0]) is not None:
                 raw, pat = t.encode(), _strval(args[0]).encode()
                 k = raw.find(pat) if m == "find" else raw.rfind(pat)
@@ -1225,6 +1289,13 @@ class Interp:
             if m == "map":
                 return ("Ok", r)
             return r
+        if m in ("map", "and_then", "or_else") and isinstance(recv, tuple) and recv[0] in ("Ok", "Err") and len(recv) == 2 and args and isinstance(args[0], dict) \
+                and args[0].get("k") == "closure":
+            hit = (m == "or_else" and recv[0] == "Err") or (m in ("map", "and_then") and recv[0] == "Ok")
+            if not hit:
+                return recv
+            r = self.call_closure(args[0], [recv[1]])
+            return ("Ok", r) if m == "map" else r
         if m in ("is_none_or", "is_some_and") and isinstance(recv, tuple) and recv[0] in ("Some", "None") and e["a"] and e["a"][0].get("k") == "path" \
                 and recv[0] == "None":
             return m == "is_none_or"
